@@ -69,6 +69,8 @@ Section Fmt.
     | ev :: r =>
         match ev, b with
         | EvWriteStr s, None => option_map (append s) (run_events None r)
+        | EvDebugFmt a, None => option_map (append (render a)) (run_events None r)
+            (* C20: a value formatted directly on the formatter writes its own text *)
         | EvBuilderNew k name, None =>
             option_map (append (new_text k name)) (run_events (Some (k, 0, is_empty name)) r)
         | EvBuilderField (Some key) a, Some (BStruct, n, e) =>
@@ -83,3 +85,22 @@ Section Fmt.
         end
     end.
 End Fmt.
+
+(** ** C20: the text of a byte slice.
+    `<[T] as Debug>::fmt` is `f.debug_list().entries(self.iter()).finish()`:
+    debug_list_new writes "[", DebugInner::entry_with writes ", " between entries
+    (compact) or "\n" before the first entry and each entry through a fresh
+    PadAdapter followed by ",\n" (pretty), DebugList::finish writes "]".
+    [items] are the entries' own texts under the same flags. *)
+Fixpoint list_entries_text (alt first : bool) (items : list string) : string :=
+  match items with
+  | [] => ""
+  | x :: r =>
+      (if alt then (if first then nl else "") ^^ indent (x ^^ "," ^^ nl)
+       else (if first then "" else ", ") ^^ x) ^^ list_entries_text alt false r
+  end.
+Definition debug_list_text (alt : bool) (items : list string) : string :=
+  "[" ^^ list_entries_text alt true items ^^ "]".
+(** `<u8 as Debug>::fmt` without the `x?` / `X?` flags, width or precision is the decimal
+    Display, in both modes *)
+Definition bytes_text (alt : bool) (l : list nat) : string := debug_list_text alt (map dec l).
